@@ -13,6 +13,7 @@
 #include <vorbis/vorbisfile.h>
 #include "tape.h"
 #include "report.h"
+extern "C" int vorbis_bitrate_managed(vorbis_block *vb);   // lib/bitrate.h (exported by libvorbis, declared in a private header)
 
 // ---------------------------------------------------------------------------------------------
 struct Pkt {
@@ -139,6 +140,8 @@ struct Encoder {
   vorbis_info vi; vorbis_comment vc; vorbis_dsp_state vd; vorbis_block vb;
   bool have_vi = false, have_vd = false, have_vb = false, have_vc = false;
   int setup_ret = 0;
+  bool direct = false;     // take packets from vorbis_analysis(&vb,&op) itself (the documented non-managed output path) instead of the bitrate API
+  long direct_packets = 0, direct_refused = 0;
   std::string err;
   ~Encoder() { clear(); }
   void clear() {
@@ -196,7 +199,13 @@ struct Encoder {
   int drain(LStream &s) {
     int r;
     while ((r = vorbis_analysis_blockout(&vd, &vb)) == 1) {
-      int a = vorbis_analysis(&vb, NULL); if (a != 0) { err = sfmt("vorbis_analysis=%d", a); return -1; }
+      int a;
+      if (direct) {
+        ogg_packet dp; a = vorbis_analysis(&vb, &dp);
+        if (!vorbis_bitrate_managed(&vb)) { if (a != 0) { err = sfmt("vorbis_analysis(packet)=%d", a); return -1; } s.audio.push_back(Pkt::from_ogg(dp)); direct_packets++; continue; }
+        if (a != OV_EINVAL) { err = sfmt("vorbis_analysis(packet)=%d on a bitrate-managed encoder (OV_EINVAL documented)", a); return -1; }
+        direct_refused++;   // the block has been analysed; its candidates go through the bitrate API as usual
+      } else { a = vorbis_analysis(&vb, NULL); if (a != 0) { err = sfmt("vorbis_analysis=%d", a); return -1; } }
       a = vorbis_bitrate_addblock(&vb); if (a != 0) { err = sfmt("bitrate_addblock=%d", a); return -1; }
       ogg_packet op;
       while ((a = vorbis_bitrate_flushpacket(&vd, &op)) == 1) s.audio.push_back(Pkt::from_ogg(op));
